@@ -2,6 +2,11 @@
 """Regenerates /verif/MANIFEST.json from the table below (the single place where claims are stated)."""
 import json, subprocess, sys
 
+CORE_NOTE = (" The check also covers every function tagged CORE (dispatch chain, lifecycle functions, constructors, built-in queue "
+             "operations): a change there that breaks their contracts (a second dispatcher, an unbuffered signal channel, a Purge that keeps entries, "
+             "a pool node stopped by a goroutine that does not own it ...) breaks this property too.")
+CORE_PROPS = {"C01", "C02", "C03", "C04", "C06", "C09", "C14", "C17", "C18"}
+
 COMMON_NOTE = (
     "Trusted: the vq engine itself (go/ssa -> SMT translation, contract parser; /verif/vq), go/ssa + go/types "
     "(x/tools v0.29.0), the SMT solvers (z3 4.8.12, z3 5.1.0, cvc5 1.0.3; one unsat answer discharges), the primitive "
@@ -18,7 +23,8 @@ CHECKS = {
     "C01": ("Per-function proof that an accepted job is enqueued exactly once (6 x Add/AddAll: one Enqueue per accepted item, "
             "none for rejected), that Queue/PriorityQueue Dequeue removes exactly the returned item from the abstract multiset, that "
             "processNextJob hands a dequeued job to exactly one pool node (or acknowledges/closes it without dispatch when it is closed), "
-            "and that the pool goroutine body runs the user function once per received job. The cross-goroutine composition "
+            "that the pool goroutine body runs the user function once per received job, and (B2-lite) that a pool node is stopped/cached only by the goroutine "
+            "that took it out of the idle list itself (findings G6, G7 in the idle-worker reaper: fixed). The cross-goroutine composition "
             "(exactly-once over the whole history) rests on the ghost multiset/ counters and is not itself a theorem of the tool.",
             "sequential contracts on enqueue/dequeue/dispatch chain; ghost multisets $inQ/$mem, $dispatched counters"),
     "C02": ("Per-function proof that curProcessing is incremented only under the guard curProcessing < concurrency read in the same "
@@ -44,7 +50,8 @@ CHECKS = {
     "C06": ("Per-function proof of the barrier bodies: WaitUntilFinished returns only on a state with no pending and no processing job "
             "(loop invariant + rely on the condition variable), PauseAndWait/WaitAndStop compose it with the status change, Stop leaves "
             "curProcessing == 0 and an empty pool; releaseWaiters broadcasts after the counters are final; processNextJob releases the waiters "
-            "whenever it consumes an entry without dispatching it (wake-consumed; finding F5, fixed).",
+            "whenever it consumes an entry without dispatching it (wake-consumed; finding F5, fixed), with an in-flight count read after the dequeue; "
+            "the broadcast is sent with the condition variable's mutex held (finding G4b, lost wake-up, fixed).",
             "loop invariants over cond-var wait with rely clauses"),
     "C07": ("Per-function proof that each job constructor allocates a fresh response channel / wait counter, that the worker "
             "closures (NewWorker$1 etc.) send exactly the value/err of the user function call on that job's own handle, and that WithSafe "
@@ -89,14 +96,15 @@ CHECKS = {
             "signalling the dispatcher); concurrent status writers are not composed (finding class G1/G2 of DESIGN.md is not decided).",
             "monotonicity postconditions on all writers of job.status"),
     "C17": ("Per-function proof that Queue/PriorityQueue Len equals the size of the abstract view (never negative, no wrap), "
-            "NumPending sums Len over registered queues, metrics counters only increase by one per event and Reset zeroes them, "
+            "NumPending sums Len over registered queues, metrics counters only increase by one per event and Reset zeroes them, Submitted counts exactly the accepted items of a batch, "
             "curProcessing is incremented once per dispatch and decremented once per completion. 'Exact at rest' is by the counters' "
             "ghost equalities; plus every-instant asserts readCount <= writeCount after each counter store in Queue.Purge/Dequeue "
             "(what the lock-free Len() may observe); other in-flight interleavings are outside SEQ mode.",
             "abstract-view equalities for Len/NumPending; counter ghosts"),
     "C18": ("Per-function proof that the pool list is a well-formed doubly linked list whose length equals the node count ghost, "
             "initPoolNode/freePoolNode/stopAndRemoveAllWorkers/TunePool keep size within [min idle, concurrency] (findings F8, F9 fixed), "
-            "the reaper stops only idle nodes above the minimum, Stop stops every node, ticker and listener. Open known finding F6: the reaper "
+            "the reaper stops only idle nodes above the minimum and only nodes it removed from the list itself, and slices its snapshot within bounds (findings G6, G7, fixed), "
+            "Stop stops every node, ticker and listener. Open known finding F6: the reaper "
             "goroutine itself survives Stop/Restart (ranges over ticker.C, never closed) - reported as KNOWN-FINDING, demonstrated on real code.",
             "RI_List + $nodes/$reapers/$listeners ghost counts"),
 }
@@ -104,7 +112,7 @@ CHECKS = {
 CHECKS["C19"] = ("Lock-discipline contracts (B1): every load/store of a field declared guarded_by in the contract files happens with its lock held "
     "(write mode for stores) on every path of every function of the module that touches such a field; locks acquired are released on every return path; "
     "helpers declared `holds` are only called with the lock held; frozen fields are written only by constructors; the per-job worker closures never store to "
-    "captured variables. Decided by the executor's held-lock set per path (no solver). This is the lock discipline of the declared fields, not data-race freedom of "
+    "captured variables; fields declared `atomic` keep a sync/atomic type. Decided by the executor's held-lock set per path (no solver). This is the lock discipline of the declared fields, not data-race freedom of "
     "all memory: atomics, channel hand-off and 'for all client programs' are outside it. Known finding G10a (Node.Next/Prev) reported as KNOWN-FINDING; G10b fixed.",
     "guarded_by / frozen / holds / concurrent contract clauses; held-lock-set tracking along go/ssa paths")
 
@@ -129,7 +137,7 @@ def main():
             "engine": "vq",
             "level_claimed": {
                 "category": "proof",
-                "text": text,
+                "text": text + (CORE_NOTE if pid in CORE_PROPS else ""),
                 "design_ref": f"DESIGN.md section 3 ({pid}) and section 9 (as built)",
             },
             "level_note": COMMON_NOTE,
